@@ -24,7 +24,7 @@ DELTA = [(-1, 0), (0, -1), (1, 0), (0, 1), (0, 0)]  # (d_row, d_col) per action 
 
 class A(Adapter):
     name = "PacMan"
-    run_scale = 1
+    run_scale = 5  # episodes are short (ghosts), deep states need many runs
     mask_mode = "flat"
     has_reaction = True
     has_invalid_effect = True
@@ -232,3 +232,33 @@ class A(Adapter):
             if best is None or score > best:
                 best, best_a = score, a
         return best_a
+
+    def policy_complete(self, s, env, rng, legal):
+        """Tour the maze: head (by shortest corridor path, safe moves first) for the four outermost corridor corners
+        in turn - bottom-left, bottom-right, top-right, top-left - switching target every 45 steps. The ghosts follow
+        the player, so the border rows and columns and the tunnel get exercised by player and ghosts alike."""
+        if legal is None or not legal[:4].any():
+            return None
+        g = np.asarray(s.grid)
+        rows, cols = np.nonzero(g == 1)
+        corners = []
+        for want_bottom, want_right in ((True, False), (True, True), (False, True), (False, False)):
+            r = rows.max() if want_bottom else rows.min()
+            cs = cols[rows == r]
+            corners.append((int(r), int(cs.max() if want_right else cs.min())))
+        target = corners[(int(s.step_count) // 45) % 4]
+        dt = self._dist_from(g, [target])
+        ghosts = [(int(r), int(c)) for c, r in np.asarray(s.ghost_locations).tolist()]
+        d = self._dist_from(g, ghosts)
+        scared = int(s.frightened_state_time) > 1
+        rc = self._player(s)
+        best, best_a = None, None
+        for a in [int(x) for x in rng.permutation(4)]:
+            if not legal[a]:
+                continue
+            t = self._target(g, rc, a)
+            score = (1 if (scared or d[t] >= 2) else 0, -int(dt[t]))
+            if best is None or score > best:
+                best, best_a = score, a
+        return best_a
+
